@@ -51,6 +51,8 @@ AllExported == {Exported[i] : i \in Items}
 
 Pats(place) == {NoPat, Subst("ns" \o place \o "_", ""), Subst("", "_" \o place)}
                \cup (IF place \in {"t", "me"} THEN {Fixed("fx_" \o place)} ELSE {})
+               \* the identity pattern "{0}": not empty -- on an inner item it switches an inherited pattern off again
+               \cup (IF place # "m" THEN {Subst("", "")} ELSE {})
 Init == stage = "choose" /\ pm = NoPat /\ pt = NoPat /\ pi = NoPat /\ pme = NoPat /\ dis = [k |-> "none", b |-> "c"]
 Choose == /\ stage = "choose"
           /\ pm' \in Pats("m") /\ pt' \in Pats("t") /\ pi' \in Pats("i") /\ pme' \in Pats("me")
